@@ -98,6 +98,10 @@ let functions : (string * (val0 -> val0)) list = [
   ("conn", conn_run);
   ("cmd", cmd_run);
   ("evm", evm_run);
+  ("genesis", genesis_run);
+  ("votesgen", votesgen_run);
+  ("oraclegen", oraclegen_run);
+  ("reggen", reggen_run);
 ]
 
 (* monitors: (property, suite) -> case -> implementation output -> list of violations *)
@@ -118,6 +122,10 @@ let monitors : ((string * string) * (val0 -> val0 -> val0)) list = [
   (("C14", "claim"), mon_C14);
   (("C16", "reg"), mon_C16);
   (("C17", "reg"), mon_C17);
+  (("C15", "genesis"), mon_C15_hub);
+  (("C15", "votesgen"), mon_C15_votes);
+  (("C15", "oraclegen"), mon_C15_oracle);
+  (("C15", "reggen"), mon_C15_reg);
   (("C18", "oracle"), mon_C18);
   (("C20", "conn"), mon_C20_conn);
   (("C20", "cmd"), mon_C20_cmd);
